@@ -1,4 +1,14 @@
-"""C12 — connections stay mutual, well-typed and duplicate-free under any editing history."""
+"""C12 — connections stay mutual, well-typed and duplicate-free under any editing history.
+
+World of a case (fixed table `OBJS`, 13 owners, ~140 channels): two workflows w0 / w1 whose data
+panels expose children's channels by reference (`inputs_map` / `outputs_map` of the case may expose
+CONNECTED child channels or hide channels), leaf nodes of several interfaces below them, a macro
+`m` (own IO, value-linked children `ma`, `mb`) below w0, two parentless replacement candidates
+`p`, `q` (interfaces chosen by the case) and a parentless node `f`.  Connections are made between
+any two channels of the world: across the workflow boundary, into and out of the macro's body, onto
+the workflows' own signal channels.  Nodes are driven into every run-state (idle, failed, RUNNING =
+in flight on a controllable executor) while the graph is edited.
+"""
 
 from __future__ import annotations
 
@@ -15,306 +25,934 @@ THEOREMS = [
     "C12_connect_idempotent",
 ]
 RULE = (
-    "random editing histories (seeded) over 5 nodes / 40 channels through every public entry point "
-    "(connect by method, multi-arg, assignment, keyword, >>, <<; disconnect at channel/panel/node level; "
-    "disconnect_run; copy_connections; copy_io hard/soft; remove_child; replace_child; run; pull); "
-    "non-trivial = at least 3 operations changed some connection list; distinct by canonical op list"
+    "seeded editing histories over 13 owners (2 workflows with IO maps, macro with body, leaf nodes of 11 "
+    "interfaces, parentless candidates) / ~140 channels through every public entry point at every owner level "
+    "(connect by method, multi-arg, assignment, keyword, through a workflow panel, >>, << between channels and "
+    "between owners; disconnect / disconnect_all / connected / connections at channel, panel, signals, node, macro "
+    "and workflow level, disconnect_run of nodes and composites; copy_connections; copy_io hard / soft / public "
+    "between any two owners; remove_child; add_child; replace_child; run; pull) with nodes idle, failed and in "
+    "flight on a controllable executor; families: general, owner-level, multi-panel copies with a refusal in "
+    "every panel position and every pre-existing-connection configuration, editing around running nodes, "
+    "injected per-channel refusals (order of the two half-removals); non-trivial = at least 3 operations changed "
+    "some connection list; distinct by canonical case"
 )
 TRUSTED = [
-    "model Conn.connect1/disconnect1 transcribe Channel.connect/disconnect; run/pull/replace are observed "
-    "on the implementation and re-synchronised into the model (their rewiring is C01/C11/C14's subject)",
+    "model ConnOps.connectG/disconnectG (and Conn.connect1/disconnect1) transcribe Channel.connect/disconnect; "
+    "run/pull/replace_child/add_child are observed on the implementation and re-synchronised into the model "
+    "(their rewiring is C01/C11/C14's subject), the oracle still scans every state they leave",
     "validity of a typed pair is computed by the harness with plain issubclass, independent of the library",
+    "which child channels a workflow's data panels expose is read off the live panels before and after every "
+    "owner-level operation (panel composition is C15's subject)",
 ]
 ASSUMPTIONS = ["channel identity = Python object identity; lists are only mutated through connect/disconnect"]
 
 KINDS = {"inputs": "di", "outputs": "do", "sin": "si", "sout": "so"}
-NODE_SPECS = ["TypedOut", "Typed", "Typed", "TypedOut", "F0"]
-N_NODES = len(NODE_SPECS)
+CONJ = {"inputs": "outputs", "outputs": "inputs", "sin": "sout", "sout": "sin"}
+PANELS = ("inputs", "outputs", "sin", "sout")
+CAND_CLASSES = ["TA", "TB", "TC", "TD", "TE", "TF", "TG", "TH", "TI", "TJ", "TS"]
+
+# (kind, class, parent index, label); p and q take their class from the case
+OBJS = [
+    ("wf", None, None, "w0"),
+    ("wf", None, None, "w1"),
+    ("leaf", "TA", 0, "a"),
+    ("leaf", "TB", 0, "b"),
+    ("leaf", "TS", 0, "c"),
+    ("macro", "Mac12", 0, "m"),
+    ("leaf", "TB", 5, "ma"),
+    ("leaf", "TA", 5, "mb"),
+    ("leaf", "TA", 1, "d"),
+    ("leaf", "TB", 1, "e"),
+    ("leaf", None, None, "p"),
+    ("leaf", None, None, "q"),
+    ("leaf", "TB", None, "f"),
+]
+N_OBJ = len(OBJS)
+WFS = [0, 1]
+COMPOSITES = [0, 1, 5]
+LEAVES = [i for i, o in enumerate(OBJS) if o[0] == "leaf"]
+CANDS = [10, 11]
+
+_SPEC = {
+    "TA": (["i:int", "s:str", "u", "b:bool"], ["oi:int", "os:str", "ob:bool"]),
+    "TB": (["i:int", "s:str", "u", "b:bool"], ["oi", "os", "ob"]),
+    "TC": (["s:str", "u", "b:bool"], ["oi:int", "os:str", "ob:bool"]),
+    "TD": (["i:int", "s:str", "u"], ["oi:int", "os:str", "ob:bool"]),
+    "TE": (["i:int", "s:str", "u", "b:bool"], ["os:str", "ob:bool"]),
+    "TF": (["i:int", "s:str", "u", "b:bool"], ["oi:int", "os:str"]),
+    "TG": (["i:str", "s:str", "u", "b:bool"], ["oi:int", "os:str", "ob:bool"]),
+    "TH": (["i:int", "s:str", "u", "b:str"], ["oi:int", "os:str", "ob:bool"]),
+    "TI": (["i:int", "s:str", "u", "b:bool"], ["oi:str", "os:str", "ob:bool"]),
+    "TJ": (["i:int", "s:str", "u", "b:bool"], ["oi:int", "os:str", "ob:str"]),
+    "TS": (["i:int", "s:str", "u", "b:bool"], ["oi:int", "os:str", "ob:bool"]),
+    "Mac12": (["x:int"], ["o"]),
+}
+_TYPES = {"int": int, "str": str, "bool": bool}
 
 
-# ----------------------------------------------------------------------------- world
+def _cls_of(i, cands):
+    return cands[i - CANDS[0]] if i in CANDS else OBJS[i][1]
 
 
-def _build():
-    from pyiron_workflow import Workflow
+class Layout:
+    """static channel table of a case: ids in a fixed enumeration order, labels, kinds, hints"""
 
-    from . import nodes
+    def __init__(self, cands):
+        self.cands = list(cands)
+        self.rows = []  # (obj, panel, label, hint)
+        for i, (kind, _c, _p, _l) in enumerate(OBJS):
+            if kind != "wf":
+                ins, outs = _SPEC[_cls_of(i, cands)]
+                for w in ins:
+                    lab, _, h = w.partition(":")
+                    self.rows.append((i, "inputs", lab, _TYPES.get(h)))
+                for w in outs:
+                    lab, _, h = w.partition(":")
+                    self.rows.append((i, "outputs", lab, _TYPES.get(h)))
+            extra = _cls_of(i, cands) == "TS"
+            for lab in ["run", "accumulate_and_run"] + (["xin"] if extra else []):
+                self.rows.append((i, "sin", lab, None))
+            for lab in ["ran", "failed"] + (["xout"] if extra else []):
+                self.rows.append((i, "sout", lab, None))
+        self.n = len(self.rows)
+        self.by_kind = {k: [c for c, r in enumerate(self.rows) if r[1] == k] for k in PANELS}
+        self.key = {(r[0], r[1], r[2]): c for c, r in enumerate(self.rows)}
 
-    wf = Workflow("w", autoload=None)
-    ns = []
-    for i, spec in enumerate(NODE_SPECS):
-        n = getattr(nodes, spec)(label=f"n{i}")
-        if i != 4:  # n4 stays parentless
-            wf.add_child(n)
-        ns.append(n)
-    return wf, ns
+    def panel(self, obj, panel):
+        return [c for c, r in enumerate(self.rows) if r[0] == obj and r[1] == panel]
 
+    def own(self, obj):
+        return [c for c, r in enumerate(self.rows) if r[0] == obj]
 
-def _channels(ns):
-    """[(id, node_index, panel, label, object)] in the fixed enumeration order"""
-    out = []
-    for i, n in enumerate(ns):
-        for panel, io in (("inputs", n.inputs), ("outputs", n.outputs), ("sin", n.signals.input),
-                          ("sout", n.signals.output)):
-            for label, ch in io.items():
-                out.append((len(out), i, panel, label, ch))
-    return out
+    def owned_panels(self, obj):
+        """`_owned_io_panels`: a workflow owns its signal panels only"""
+        ps = ("sin", "sout") if OBJS[obj][0] == "wf" else PANELS
+        return [self.panel(obj, p) for p in ps]
 
+    def cid(self, obj_label, panel, label):
+        obj = next(i for i, o in enumerate(OBJS) if o[3] == obj_label)
+        return self.key[(obj, panel, label)]
 
-def _static_layout():
-    """channel table without touching the library at generation time (labels are fixed by nodes.py)"""
-    lay = []
-    for i, spec in enumerate(NODE_SPECS):
-        if spec == "F0":
-            ins, outs = ["a", "b", "c"], ["o"]
-        elif spec == "Typed":
-            ins, outs = ["i", "s", "u", "b"], ["oi", "os", "ou"]
-        else:
-            ins, outs = ["i", "s", "u", "b"], ["oi", "os", "ob"]
-        for lab in ins:
-            lay.append((i, "inputs", lab))
-        for lab in outs:
-            lay.append((i, "outputs", lab))
-        lay.append((i, "sin", "run"))
-        lay.append((i, "sin", "accumulate_and_run"))
-        lay.append((i, "sout", "ran"))
-        lay.append((i, "sout", "failed"))
-    return lay
-
-
-LAYOUT = _static_layout()
-HINTS = {"i": int, "s": str, "b": bool, "oi": int, "os": str, "ob": bool}
-
-
-def _hint(node_idx, panel, label):
-    spec = NODE_SPECS[node_idx]
-    if spec == "F0":
-        return None
-    if panel == "inputs":
-        return HINTS.get(label)
-    if panel == "outputs":
-        return HINTS.get(label) if spec == "TypedOut" else None
-    return None
-
-
-def _invalid_pairs(nonstrict: set[int]):
-    res = []
-    for a, (na, pa, la) in enumerate(LAYOUT):
-        if pa != "inputs":
-            continue
-        hi = _hint(na, pa, la)
-        if hi is None or a in nonstrict:
-            continue
-        for b, (nb, pb, lb) in enumerate(LAYOUT):
-            if pb != "outputs":
+    def invalid_pairs(self, nonstrict):
+        res = []
+        for a in self.by_kind["inputs"]:
+            hi = self.rows[a][3]
+            if hi is None or a in nonstrict:
                 continue
-            ho = _hint(nb, pb, lb)
-            if ho is not None and not issubclass(ho, hi):
-                res.append((a, b))
-    return res
+            for b in self.by_kind["outputs"]:
+                ho = self.rows[b][3]
+                if ho is not None and not issubclass(ho, hi):
+                    res.append((a, b))
+        return res
 
 
-def _chans_of(node_idx, panels=("inputs", "outputs", "sin", "sout")):
-    return [c for c, (n, p, _l) in enumerate(LAYOUT) if n == node_idx and p in panels]
+_LAYOUTS: dict = {}
+
+
+def layout_of(case) -> Layout:
+    k = tuple(case["cands"])
+    if k not in _LAYOUTS:
+        _LAYOUTS[k] = Layout(k)
+    return _LAYOUTS[k]
 
 
 # ----------------------------------------------------------------------------- generation
 
 
+class _G:
+    def __init__(self, rng, cands=None, maps=None, nonstrict=None):
+        self.rng = rng
+        self.cands = cands or [rng.choice(CAND_CLASSES), rng.choice(CAND_CLASSES)]
+        self.lay = Layout(self.cands)
+        self.ids = list(range(self.lay.n))
+        self.maps = maps if maps is not None else self._maps()
+        ins = self.lay.by_kind["inputs"]
+        self.nonstrict = sorted(rng.sample(ins, rng.randint(0, 3))) if nonstrict is None else nonstrict
+        self.ops = []
+
+    def _maps(self):
+        """expose / hide some children's channels on the workflows' own panels"""
+        rng = self.rng
+        maps = {}
+        for w in WFS:
+            kids = [i for i, o in enumerate(OBJS) if o[2] == w]
+            m = {"inputs": {}, "outputs": {}}
+            for d in ("inputs", "outputs"):
+                pool = [c for k in kids for c in self.lay.panel(k, d)]
+                for n, c in enumerate(rng.sample(pool, rng.randint(0, 4))):
+                    o, _p, lab, _h = self.lay.rows[c]
+                    m[d][f"{OBJS[o][3]}__{lab}"] = f"x{d[0]}{n}" if rng.random() < 0.85 else None
+            maps[str(w)] = m
+        return maps
+
+    def case(self, family):
+        return {"family": family, "cands": self.cands, "maps": self.maps, "nonstrict": self.nonstrict,
+                "ops": self.ops}
+
+    # -- single operations
+    def conj_of(self, a):
+        return self.lay.by_kind[CONJ[self.lay.rows[a][1]]]
+
+    def connect(self, a=None, k=None, valid=0.85):
+        rng = self.rng
+        a = rng.choice(self.ids) if a is None else a
+        pa = self.lay.rows[a][1]
+        k = rng.choice([1, 1, 1, 2, 3]) if k is None else k
+        bs = [rng.choice(self.conj_of(a)) if rng.random() < valid else rng.choice(self.ids) for _ in range(k)]
+        how = "method"
+        if k == 1:
+            pb = self.lay.rows[bs[0]][1]
+            if {pa, pb} == {"inputs", "outputs"}:
+                how = rng.choice(["method", "assign", "kw", "wfassign", "wfkw", "method"])
+            elif {pa, pb} == {"sin", "sout"}:
+                how = rng.choice(["method", "rshift", "lshift", "orshift", "olshift", "method"])
+        self.ops.append(["connect", how, a, *bs])
+
+    def connect_pair(self, a, b, how="method"):
+        self.ops.append(["connect", how, a, b])
+
+    def any_op(self, weights=None):
+        rng = self.rng
+        r = rng.random()
+        if r < 0.36:
+            self.connect()
+        elif r < 0.46:
+            a = rng.choice(self.ids)
+            self.ops.append(["disconnect", a, *[rng.choice(self.ids if rng.random() < 0.5 else self.conj_of(a))
+                                                for _ in range(rng.choice([1, 1, 2]))]])
+        elif r < 0.51:
+            self.ops.append(["disconnectall", rng.choice(self.ids)])
+        elif r < 0.60:
+            self.odisc()
+        elif r < 0.64:
+            self.ops.append(["query", rng.randrange(N_OBJ)])
+        elif r < 0.70:
+            a = rng.choice(self.ids)
+            same = self.lay.by_kind[self.lay.rows[a][1]]
+            self.ops.append(["copyconns", a, rng.choice(same) if rng.random() < 0.85 else rng.choice(self.ids)])
+        elif r < 0.77:
+            self.ops.append(["copyio", rng.choice(["hard", "soft", "pub", "pubsoft"]), rng.randrange(N_OBJ),
+                             rng.randrange(N_OBJ)])
+        elif r < 0.81:
+            self.ops.append(["remove", rng.randrange(2, N_OBJ)])
+        elif r < 0.85:
+            self.ops.append(["readd", rng.randrange(2, N_OBJ), rng.choice(COMPOSITES)])
+        elif r < 0.88:
+            self.ops.append(["replace", rng.randrange(2, N_OBJ),
+                             rng.choice(CANDS + [12]) if rng.random() < 0.85 else rng.randrange(N_OBJ)])
+        elif r < 0.92:
+            self.state_op()
+        elif r < 0.95:
+            self.ops.append(["runwf", rng.choice(WFS)])
+        elif r < 0.98:
+            self.ops.append(["pull", rng.randrange(2, N_OBJ)])
+        else:
+            self.ops.append(["runnode", rng.randrange(2, N_OBJ)])
+
+    def odisc(self, obj=None):
+        rng = self.rng
+        obj = rng.randrange(N_OBJ) if obj is None else obj
+        self.ops.append(["odisc", obj, rng.choice(["inputs", "outputs", "sin", "sout", "signals", "node", "node",
+                                                   "run", "crun"])])
+
+    def state_op(self):
+        rng = self.rng
+        k = rng.choice(LEAVES)
+        self.ops.append(rng.choice([["start", k], ["start", k], ["finish", k], ["boom", k, 1], ["boom", k, 0],
+                                    ["runnode", k]]))
+
+    def wire_some(self, n, cross=0.4):
+        """n mostly valid connections; a share crosses an ownership boundary (other workflow, macro body,
+        a workflow's own signals)"""
+        rng = self.rng
+        for _ in range(n):
+            a = rng.choice(self.ids)
+            bs = self.conj_of(a)
+            oa = self.lay.rows[a][0]
+            if rng.random() < cross:
+                far = [b for b in bs if _root(self.lay.rows[b][0]) != _root(oa)]
+                bs = far or bs
+            self.connect_pair(a, rng.choice(bs), "method")
+
+
+def _root(obj):
+    while OBJS[obj][2] is not None:
+        obj = OBJS[obj][2]
+    return obj
+
+
+def _gen_general(rng, tier):
+    g = _G(rng)
+    for _ in range(rng.randint(4, 30 if tier == "quick" else 60)):
+        g.any_op()
+    return g.case("general")
+
+
+def _gen_owner(rng, tier):
+    """connections onto exposed / mapped / foreign channels, then owner-level disconnects and queries at
+    every level, nodes in assorted run-states"""
+    g = _G(rng)
+    # make sure some MAPPED channels are connected: that is what makes a workflow's data panel non-trivial
+    mapped = []
+    for w in WFS:
+        for d in ("inputs", "outputs"):
+            for key, exposed in g.maps[str(w)][d].items():
+                if exposed is not None:
+                    lab_o, lab_c = key.split("__")
+                    mapped.append(g.lay.cid(lab_o, d, lab_c))
+    for c in mapped:
+        if rng.random() < 0.8:
+            g.connect_pair(c, rng.choice(g.conj_of(c)), rng.choice(["method", "method", "wfassign"]))
+    g.wire_some(rng.randint(3, 10))
+    for _ in range(rng.randint(0, 2)):
+        g.state_op()
+    for _ in range(rng.randint(2, 8)):
+        r = rng.random()
+        if r < 0.55:
+            g.odisc(rng.choice(WFS + COMPOSITES) if rng.random() < 0.6 else None)
+        elif r < 0.75:
+            g.ops.append(["query", rng.randrange(N_OBJ)])
+        elif r < 0.9:
+            g.wire_some(rng.randint(1, 3))
+        else:
+            g.any_op()
+    return g.case("owner")
+
+
+# where a copy can be made to refuse: (label, panel) of the source channel that gets connected
+_POSITIONS = [("i", "inputs"), ("b", "inputs"), ("oi", "outputs"), ("ob", "outputs"), ("s", "inputs"),
+              ("os", "outputs"), ("run", "sin"), ("accumulate_and_run", "sin"), ("ran", "sout"),
+              ("failed", "sout"), ("xin", "sin"), ("xout", "sout")]
+
+
+def _gen_copy(rng, tier):
+    """a source node with connections in chosen panel positions, a receiver of a chosen interface with
+    chosen pre-existing connections, then copy_io / copy_connections / replace_child"""
+    cands = [rng.choice(CAND_CLASSES), rng.choice(CAND_CLASSES)]
+    g = _G(rng, cands=cands, nonstrict=[] if rng.random() < 0.7 else None)
+    lay = g.lay
+    src = rng.choice([2, 3, 4, 4, 6, 7, 8, 9])  # the node whose IO gets copied / which gets replaced
+    recv = rng.choice(CANDS)
+    n_pos = rng.randint(1, 5)
+    for lab, panel in rng.sample(_POSITIONS, n_pos):
+        c = lay.key.get((src, panel, lab))
+        if c is None:
+            continue
+        pool = [b for b in g.conj_of(c) if lay.rows[b][0] not in (src, recv)]
+        # typed partners that make the hinted variants refuse: int output for i, bool input for ob ...
+        for _ in range(rng.choice([1, 1, 2])):
+            g.connect_pair(c, rng.choice(pool))
+    # pre-existing connections of the receiver: none / to unrelated channels / to the very partners the
+    # copy is going to attempt / mixed
+    pre = rng.choice(["none", "none", "unrelated", "same", "mixed"])
+    if pre in ("unrelated", "mixed"):
+        for _ in range(rng.randint(1, 3)):
+            c = rng.choice(lay.own(recv))
+            g.connect_pair(c, rng.choice(g.conj_of(c)))
+    if pre in ("same", "mixed"):
+        for _ in range(rng.randint(1, 3)):
+            c = rng.choice(lay.own(recv))
+            twin = lay.key.get((src, lay.rows[c][1], lay.rows[c][2]))
+            if twin is not None:
+                g.ops.append(["copyconns", c, twin])
+    for _ in range(rng.randint(0, 2)):
+        g.state_op()
+    r = rng.random()
+    if r < 0.4 and pre == "none":
+        g.ops.append(["replace", src, recv])
+    elif r < 0.5:
+        g.ops.append(["replace", src, recv])
+    elif r < 0.85:
+        g.ops.append(["copyio", rng.choice(["hard", "pub", "pub", "soft", "pubsoft"]), recv, src])
+    else:
+        c = rng.choice(lay.own(recv))
+        twin = lay.key.get((src, lay.rows[c][1], lay.rows[c][2]))
+        g.ops.append(["copyconns", c, twin if twin is not None else rng.choice(g.ids)])
+    g.ops.append(["query", recv])
+    for _ in range(rng.randint(0, 4)):
+        g.any_op()
+    return g.case("copy")
+
+
+def _gen_running(rng, tier):
+    """a node in flight (or failed) while its neighbours are disconnected / removed / replaced, from
+    either side of every connection"""
+    g = _G(rng, nonstrict=[])
+    lay = g.lay
+    busy = rng.choice([2, 3, 4, 6, 7, 8, 9, 12])
+    # neighbours upstream and downstream, data and signal
+    for panel in PANELS:
+        for c in rng.sample(lay.panel(busy, panel), rng.randint(0, 2)):
+            pool = [b for b in g.conj_of(c) if lay.rows[b][0] != busy]
+            g.connect_pair(c, rng.choice(pool))
+    g.wire_some(rng.randint(0, 4))
+    mode = rng.choice(["start", "start", "start", "fail"])
+    if mode == "fail":
+        g.ops += [["boom", busy, 1], ["runnode", busy]]
+    else:
+        g.ops.append(["start", busy])
+    own = set(lay.own(busy))
+    for _ in range(rng.randint(2, 7)):
+        r = rng.random()
+        # the partners of `busy` are not known statically: aim at every conjugate channel of its channels
+        c = rng.choice(sorted(own))
+        if r < 0.2:
+            g.ops.append(["disconnectall", rng.choice(g.conj_of(c))])       # from the far side
+        elif r < 0.35:
+            g.ops.append(["disconnect", rng.choice(g.conj_of(c)), c])       # far side names the busy channel
+        elif r < 0.45:
+            g.ops.append(["disconnect", c, rng.choice(g.conj_of(c))])       # busy side initiates
+        elif r < 0.6:
+            g.odisc(rng.choice([o for o in range(N_OBJ) if o != busy]))
+        elif r < 0.7:
+            g.ops.append(["remove", rng.choice([o for o in range(2, N_OBJ) if o != busy])])
+        elif r < 0.78:
+            g.ops.append(["replace", rng.choice([o for o in range(2, N_OBJ) if o != busy]), rng.choice(CANDS)])
+        elif r < 0.86:
+            g.connect(a=c)
+        elif r < 0.92:
+            g.ops.append(["remove", busy])
+        else:
+            g.any_op()
+    if rng.random() < 0.7:
+        g.ops.append(["finish", busy])
+    for _ in range(rng.randint(0, 3)):
+        g.any_op()
+    return g.case("running")
+
+
+def _gen_inject(rng, tier):
+    """fault injection: chosen channel objects refuse `connect`/`disconnect` at entry (an instance-level
+    wrapper installed by the harness). Checks the ORDER of the two half-removals of the real
+    `Channel.disconnect` against the step-by-step model; the oracle does not judge these cases."""
+    g = _G(rng, nonstrict=[], maps={"0": {"inputs": {}, "outputs": {}}, "1": {"inputs": {}, "outputs": {}}})
+    g.wire_some(rng.randint(4, 10))
+    for _ in range(rng.randint(4, 14)):
+        r = rng.random()
+        if r < 0.25:
+            g.ops.append(["lock", rng.choice(g.ids)])
+        elif r < 0.32:
+            g.ops.append(["unlock", rng.choice(g.ids)])
+        elif r < 0.5:
+            g.connect(k=1)
+            g.ops[-1][1] = "method"
+        elif r < 0.7:
+            a = rng.choice(g.ids)
+            g.ops.append(["disconnect", a, *[rng.choice(g.conj_of(a)) for _ in range(rng.choice([1, 2]))]])
+        elif r < 0.8:
+            g.ops.append(["disconnectall", rng.choice(g.ids)])
+        elif r < 0.93:
+            g.ops.append(["odisc", rng.randrange(2, N_OBJ), rng.choice(["inputs", "outputs", "signals", "node"])])
+        else:
+            g.ops.append(["remove", rng.randrange(2, N_OBJ)])
+    c = g.case("inject")
+    c["inject"] = True
+    return c
+
+
 def gen_cases(rng, tier):
-    n_cases = 400 if tier == "quick" else 4000
-    ids = list(range(len(LAYOUT)))
-    by_kind = {k: [c for c, (_n, p, _l) in enumerate(LAYOUT) if p == k] for k in KINDS}
-    for _ in range(n_cases):
-        length = rng.randint(4, 30 if tier == "quick" else 60)
-        nonstrict = sorted(rng.sample(by_kind["inputs"], rng.randint(0, 3)))
-        ops = []
-        for _ in range(length):
-            r = rng.random()
-            if r < 0.42:
-                # mostly-valid connect: pick conjugate kinds 85% of the time
-                a = rng.choice(ids)
-                pa = LAYOUT[a][1]
-                conj = {"inputs": "outputs", "outputs": "inputs", "sin": "sout", "sout": "sin"}[pa]
-                k = rng.choice([1, 1, 1, 2, 3])
-                bs = [rng.choice(by_kind[conj]) if rng.random() < 0.85 else rng.choice(ids) for _ in range(k)]
-                how = "method"
-                if k == 1:
-                    b = bs[0]
-                    pb = LAYOUT[b][1]
-                    if {pa, pb} == {"inputs", "outputs"}:
-                        how = rng.choice(["method", "assign", "kw", "method"])
-                    elif {pa, pb} == {"sin", "sout"}:
-                        how = rng.choice(["method", "rshift", "lshift", "method"])
-                ops.append(["connect", how, a, *bs])
-            elif r < 0.55:
-                a = rng.choice(ids)
-                k = rng.choice([1, 1, 2])
-                ops.append(["disconnect", a, *[rng.choice(ids) for _ in range(k)]])
-            elif r < 0.62:
-                ops.append(["disconnectall", rng.choice(ids)])
-            elif r < 0.68:
-                ops.append(["paneldisc", rng.randrange(N_NODES),
-                            rng.choice(["inputs", "outputs", "sin", "sout", "signals", "node", "run"])])
-            elif r < 0.76:
-                a = rng.choice(ids)
-                same = [c for c in by_kind[LAYOUT[a][1]]]
-                ops.append(["copyconns", a, rng.choice(same) if rng.random() < 0.85 else rng.choice(ids)])
-            elif r < 0.84:
-                ops.append(["copyio", rng.choice(["hard", "soft"]), rng.randrange(N_NODES), rng.randrange(N_NODES)])
-            elif r < 0.88:
-                ops.append(["remove", rng.randrange(4)])
-            elif r < 0.92:
-                ops.append(["readd", rng.randrange(4)])
-            elif r < 0.95:
-                ops.append(["runwf"])
-            elif r < 0.98:
-                ops.append(["pull", rng.randrange(N_NODES)])
-            else:
-                ops.append(["replace", rng.randrange(4)])
-        yield {"nonstrict": nonstrict, "ops": ops}
+    quick = tier == "quick"
+    for fam, n in ((_gen_general, 160 if quick else 2500), (_gen_owner, 70 if quick else 900),
+                   (_gen_copy, 110 if quick else 1500), (_gen_running, 70 if quick else 900),
+                   (_gen_inject, 40 if quick else 400)):
+        for _ in range(n):
+            yield fam(rng, tier)
+    # malformed stream: channel ids / owner ids / keywords outside the table are refused by harness and driver alike
+    g = _G(rng)
+    g.ops = [["connect", "method", 0, 10 ** 6], ["odisc", 99, "node"], ["frobnicate", 1], ["connect", "method", 3, 14]]
+    yield g.case("malformed")
+
+
+_NOMAP = {"0": {"inputs": {}, "outputs": {}}, "1": {"inputs": {}, "outputs": {}}}
 
 
 def corpus():
-    # minimal hand-written cases: refused connect, multi-arg partial effect, copy undo
-    yield {"nonstrict": [], "ops": [["connect", "method", 0, 11], ["connect", "method", 1, 11],
-                                    ["connect", "method", 0, 4, 12], ["copyconns", 11, 0],
-                                    ["disconnect", 0, 11], ["disconnect", 0, 11]]}
-    yield {"nonstrict": [], "ops": [["connect", "assign", 11, 4], ["connect", "assign", 11, 5],
-                                    ["copyio", "hard", 2, 1], ["paneldisc", 0, "node"]]}
+    def mk(cands, ops, maps=None, nonstrict=(), family="corpus"):
+        lay = Layout(cands)
+        out = []
+        for op in ops:
+            out.append([lay.cid(*x) if isinstance(x, tuple) else x for x in op])
+        return {"family": family, "cands": list(cands), "maps": maps or _NOMAP,
+                "nonstrict": [lay.cid(*x) if isinstance(x, tuple) else x for x in nonstrict], "ops": out}
+
+    # refused connect, multi-arg partial effect, copy undo, double disconnect (round-1 corpus)
+    yield mk(["TA", "TA"], [
+        ["connect", "method", ("a", "inputs", "i"), ("b", "outputs", "oi")],
+        ["connect", "method", ("a", "inputs", "s"), ("d", "outputs", "oi")],
+        ["connect", "method", ("a", "inputs", "i"), ("a", "inputs", "u"), ("b", "outputs", "os")],
+        ["copyconns", ("b", "inputs", "i"), ("a", "inputs", "i")],
+        ["disconnect", ("a", "inputs", "i"), ("b", "outputs", "oi")],
+        ["disconnect", ("a", "inputs", "i"), ("b", "outputs", "oi")],
+    ])
+    # a later panel refuses after an earlier panel copied (replacement lacks the last output)
+    yield mk(["TF", "TA"], [
+        ["connect", "method", ("b", "inputs", "i"), ("a", "outputs", "oi")],
+        ["connect", "method", ("d", "inputs", "b"), ("b", "outputs", "ob")],
+        ["connect", "rshift", ("a", "sout", "ran"), ("b", "sin", "run")],
+        ["replace", 3, 10],
+        ["query", 10],
+    ])
+    # the same, refused in the signal panels only
+    yield mk(["TA", "TA"], [
+        ["connect", "method", ("c", "inputs", "i"), ("a", "outputs", "oi")],
+        ["connect", "method", ("e", "inputs", "u"), ("c", "outputs", "os")],
+        ["connect", "method", ("c", "sout", "xout"), ("e", "sin", "run")],
+        ["copyio", "pub", 10, 4],
+        ["replace", 4, 11],
+    ])
+    # a workflow whose data panels expose connected channels wired to another workflow; owner-level disconnect
+    yield mk(["TA", "TA"], [
+        ["connect", "method", ("b", "inputs", "i"), ("d", "outputs", "oi")],
+        ["connect", "method", ("e", "inputs", "u"), ("a", "outputs", "oi")],
+        ["query", 0],
+        ["odisc", 0, "node"],
+        ["odisc", 0, "node"],
+    ], maps={"0": {"inputs": {"b__i": "feed"}, "outputs": {"a__oi": "result"}}, "1": {"inputs": {}, "outputs": {}}})
+    # a node in flight while its upstream is removed / disconnected from the output side / replaced
+    yield mk(["TA", "TA"], [
+        ["connect", "method", ("b", "inputs", "i"), ("a", "outputs", "oi")],
+        ["connect", "method", ("c", "inputs", "i"), ("a", "outputs", "oi")],
+        ["runnode", 2],
+        ["start", 3],
+        ["remove", 2],
+        ["finish", 3],
+    ])
+    yield mk(["TA", "TA"], [
+        ["connect", "method", ("b", "inputs", "i"), ("a", "outputs", "oi")],
+        ["connect", "method", ("b", "inputs", "s"), ("d", "outputs", "os")],
+        ["start", 3],
+        ["disconnect", ("a", "outputs", "oi"), ("b", "inputs", "i")],
+        ["disconnectall", ("d", "outputs", "os")],
+        ["connect", "method", ("a", "outputs", "oi"), ("b", "inputs", "i")],
+        ["replace", 2, 10],
+        ["odisc", 1, "node"],
+        ["finish", 3],
+    ])
+    # refused copies with a connection that existed before (witnesses of the undo-log finding)
+    yield mk(["TA", "TA"], [
+        ["connect", "method", ("a", "inputs", "i"), ("b", "outputs", "oi")],
+        ["connect", "method", ("a", "inputs", "b"), ("d", "outputs", "os")],
+        ["connect", "method", ("p", "inputs", "i"), ("b", "outputs", "oi")],
+        ["copyio", "hard", 10, 2],
+    ], nonstrict=[("a", "inputs", "b")])
+    yield mk(["TA", "TA"], [
+        ["connect", "method", ("a", "inputs", "i"), ("d", "outputs", "os")],
+        ["connect", "method", ("a", "inputs", "i"), ("b", "outputs", "oi")],
+        ["connect", "method", ("p", "inputs", "i"), ("b", "outputs", "oi")],
+        ["copyconns", ("p", "inputs", "i"), ("a", "inputs", "i")],
+    ], nonstrict=[("a", "inputs", "i")])
 
 
 # ----------------------------------------------------------------------------- implementation side
 
 
-def _snapshot(chans, index):
-    snap = []
-    for _cid, _n, _p, _l, ch in chans:
-        snap.append([index.get(id(c), -1) for c in ch.connections])
-    return snap
+class InjectedLock(RuntimeError):
+    """raised by the harness' per-channel wrapper (fault injection family only)"""
 
 
-def _fmt(res, snap):
-    return res + " " + " ".join(f"{i}:[{','.join(map(str, l))}]" for i, l in enumerate(snap))
+def _build(case):
+    from pyiron_workflow import Workflow
+
+    from . import nodes_c12 as N
+
+    objs = [None] * N_OBJ
+    for i, (kind, cls, parent, label) in enumerate(OBJS):
+        if kind == "wf":
+            m = case["maps"].get(str(i), {})
+            objs[i] = Workflow(label, autoload=None, inputs_map=dict(m.get("inputs", {})) or None,
+                               outputs_map=dict(m.get("outputs", {})) or None)
+        elif parent is not None and OBJS[parent][0] == "macro":
+            objs[i] = objs[parent].children[label]
+        else:
+            objs[i] = N.make(_cls_of(i, case["cands"]), label)
+            if parent is not None:
+                objs[parent].add_child(objs[i])
+    for o in objs:
+        o.recovery = None
+    return objs
+
+
+def _channels(objs):
+    out = []
+    for i, n in enumerate(objs):
+        panels = []
+        if OBJS[i][0] != "wf":
+            panels += [("inputs", n.inputs), ("outputs", n.outputs)]
+        panels += [("sin", n.signals.input), ("sout", n.signals.output)]
+        for pname, io in panels:
+            for label, ch in io.items():
+                out.append((i, pname, label, ch))
+    return out
+
+
+def _fmt_conns(snap):
+    toks = [f"{i}:[{','.join(map(str, l))}]" for i, l in enumerate(snap) if l]
+    return " ".join(toks) if toks else "none"
+
+
+def _fmt_rep(rep):
+    return ",".join(f"{a}>{b}" for a, b in rep) if rep else "-"
+
+
+def _fmt_flags(fl):
+    return "flags " + "".join("1" if b else "0" for b in fl["bits"]) + " " + "|".join(
+        "[" + ",".join(map(str, s)) + "]" for s in fl["sets"])
 
 
 def run_impl(case):
+    import pyiron_workflow.nodes.composite as comp
     from pyiron_workflow.channels import ChannelConnectionError
+    from pyiron_workflow.io import ConnectionCopyError
+    from pyiron_workflow.node import Node
 
-    from . import nodes
+    from . import execsim
 
-    nodes.reset()
-    wf, ns = _build()
-    chans = _channels(ns)
-    assert [(n, p, l) for (_c, n, p, l, _o) in chans] == LAYOUT, "layout drift"
-    index = {id(ch): cid for cid, _n, _p, _l, ch in chans}
+    lay = layout_of(case)
+    objs = _build(case)
+    chans = _channels(objs)
+    assert [(o, p, l) for (o, p, l, _c) in chans] == [r[:3] for r in lay.rows], "layout drift"
     obj = [ch for *_x, ch in chans]
+    index = {id(ch): c for c, ch in enumerate(obj)}
+    oindex = {id(o): i for i, o in enumerate(objs)}
     for c in case["nonstrict"]:
         obj[c].strict_hints = False
-    obs, states, kinds = [], [], []
-    changed = 0
-    prev = _snapshot(chans, index)
-    removed = set()
-    for op in case["ops"]:
-        res = "ok"
-        modelled = True
+    sched = execsim.Scheduler([])
+    locked: set[int] = set()
+    wrapped: set[int] = set()
+
+    def snapshot():
+        return [[index.get(id(c), -1) for c in ch.connections] for ch in obj]
+
+    def parents():
+        return [oindex.get(id(o.parent), -2) if getattr(o, "parent", None) is not None else -1 for o in objs]
+
+    def runstate():
+        return "".join("r" if o.running else ("f" if o.failed else "i") for o in objs)
+
+    def members(X):
+        return [[index.get(id(c), -1) for c in g] for g in (X.inputs, X.outputs, X.signals.input, X.signals.output)]
+
+    def flags(X):
+        groups = (X.inputs, X.outputs, X.signals.input, X.signals.output)
+        return {"bits": [bool(g.connected) for g in groups] + [bool(X.connected)],
+                "sets": [sorted(index.get(id(c), -1) for c in g.connections) for g in groups],
+                "members": members(X)}
+
+    def pairs(rep):
+        return [[index.get(id(a), -1), index.get(id(b), -1)] for a, b in rep]
+
+    def wrap(c):
+        ch = obj[c]
+        if c in wrapped:
+            return
+        wrapped.add(c)
+        cls = type(ch)
+
+        def connect(*others, _ch=ch, _c=c):
+            if _c in locked:
+                raise InjectedLock(f"channel {_c}")
+            return cls.connect(_ch, *others)
+
+        def disconnect(*others, _ch=ch, _c=c):
+            if _c in locked:
+                raise InjectedLock(f"channel {_c}")
+            return cls.disconnect(_ch, *others)
+
+        ch.__dict__["connect"] = connect
+        ch.__dict__["disconnect"] = disconnect
+
+    def exposure_key(w, ch, panel):
+        for key, c in getattr(objs[w], panel).items():
+            if c is ch:
+                return key
+        return None
+
+    class _Budget:
+        n = 0
+
+    orig_run = Node.run
+    orig_sleep = comp.sleep
+
+    def counted_run(self, *a, **k):
+        _Budget.n += 1
+        if _Budget.n > 300:
+            raise execsim.Stuck("run budget exceeded")
+        return orig_run(self, *a, **k)
+
+    def sleep(*_a):
+        if not sched.jobs:
+            raise execsim.Stuck("idle with nothing outstanding")
+        execsim._run_job(sched.jobs.pop(0))
+
+    def guarded(fn):
+        """run-type operations: bounded number of node runs, outstanding jobs complete at the idle point"""
+        _Budget.n = 0
+        Node.run = counted_run
+        comp.sleep = sleep
         try:
-            if op[0] == "connect":
+            return fn()
+        finally:
+            Node.run = orig_run
+            comp.sleep = orig_sleep
+
+    def finish(k):
+        for j, job in enumerate(sched.jobs):
+            if job[0] is objs[k]:
+                sched.jobs.pop(j)
+                guarded(lambda: execsim._run_job(job))
+                objs[k].executor = None
+                return True
+        return False
+
+    init = {"snap": snapshot(), "parents": parents(), "runstate": runstate(),
+            "members": {str(i): members(objs[i]) for i in range(N_OBJ)}}
+    states = []
+    kinds = []
+    changed = 0
+    prev = init["snap"]
+    for op in case["ops"]:
+        res, rep, fl, modelled = "ok", None, None, True
+        st = {"op": op}
+        try:
+            kind = op[0]
+            if kind in ("connect", "disconnect", "copyconns") and not all(
+                    isinstance(x, int) and 0 <= x < lay.n for x in (op[2:] if kind == "connect" else op[1:])):
+                raise _Malformed()
+            if kind in ("odisc", "query", "remove", "start", "finish", "runnode", "boom", "pull", "runwf") and not (
+                    isinstance(op[1], int) and 0 <= op[1] < N_OBJ):
+                raise _Malformed()
+            if kind in ("odisc", "query"):
+                st["members_pre"] = members(objs[op[1]])
+                st["children_pre"] = ([oindex.get(id(ch), -1) for ch in objs[op[1]].children.values()]
+                                      if op[1] in COMPOSITES else [])
+            if kind == "connect":
                 how, a, bs = op[1], op[2], op[3:]
                 A = obj[a]
-                if how == "method":
+                if how == "method" or len(bs) != 1:
                     A.connect(*[obj[b] for b in bs])
                 else:
-                    B = obj[bs[0]]
-                    inp, out = (A, B) if LAYOUT[a][1] in ("inputs", "sin") else (B, A)
-                    if how == "assign":
-                        setattr(inp.owner.inputs, inp.label, out)
-                    elif how == "kw":
-                        inp.owner.set_input_values(**{inp.label: out})
-                    elif how == "rshift":
-                        out >> inp
-                    elif how == "lshift":
-                        if type(inp).__name__ == "AccumulatingInputSignal":
-                            inp << out
+                    b = bs[0]
+                    B = obj[b]
+                    pa, pb = lay.rows[a][1], lay.rows[b][1]
+                    inp, out = (A, B) if pa in ("inputs", "sin") else (B, A)
+                    ci = a if inp is A else b
+                    if {pa, pb} == {"inputs", "outputs"}:
+                        root = _root(lay.rows[ci][0])
+                        key = exposure_key(root, inp, "inputs") if how in ("wfassign", "wfkw") and root in WFS else None
+                        st["via"] = "wf" if key is not None else "owner"
+                        if how in ("wfassign",) and key is not None:
+                            setattr(objs[root].inputs, key, out)
+                        elif how == "wfkw" and key is not None:
+                            objs[root].set_input_values(**{key: out})
+                        elif how in ("assign", "wfassign"):
+                            setattr(inp.owner.inputs, inp.label, out)
                         else:
+                            inp.owner.set_input_values(**{inp.label: out})
+                    elif {pa, pb} == {"sin", "sout"}:
+                        acc = type(inp).__name__ == "AccumulatingInputSignal"
+                        if how == "rshift":
                             out >> inp
-            elif op[0] == "disconnect":
-                obj[op[1]].disconnect(*[obj[b] for b in op[2:]])
-            elif op[0] == "disconnectall":
-                obj[op[1]].disconnect_all()
-            elif op[0] == "paneldisc":
-                n = ns[op[1]]
+                        elif how == "lshift":
+                            if acc:
+                                inp << out
+                            else:
+                                out >> inp
+                        elif how == "orshift":
+                            if out.label == "ran" and inp.label == "run":
+                                out.owner >> inp.owner
+                            else:
+                                out >> inp
+                        elif how == "olshift":
+                            if out.label == "ran" and acc:
+                                inp.owner << out.owner
+                            elif acc:
+                                inp << out
+                            else:
+                                out >> inp
+                        else:
+                            raise _Malformed()
+                    else:
+                        A.connect(B)
+            elif kind == "disconnect":
+                rep = pairs(obj[op[1]].disconnect(*[obj[b] for b in op[2:]]))
+            elif kind == "disconnectall":
+                if not (isinstance(op[1], int) and 0 <= op[1] < lay.n):
+                    raise _Malformed()
+                rep = pairs(obj[op[1]].disconnect_all())
+            elif kind == "odisc":
+                X = objs[op[1]]
                 what = op[2]
+                if what == "crun" and op[1] not in COMPOSITES:
+                    what = "run"
+                st["what"] = what
                 if what == "inputs":
-                    n.inputs.disconnect()
+                    rep = X.inputs.disconnect()
                 elif what == "outputs":
-                    n.outputs.disconnect()
+                    rep = X.outputs.disconnect()
                 elif what == "sin":
-                    n.signals.input.disconnect()
+                    rep = X.signals.input.disconnect()
                 elif what == "sout":
-                    n.signals.output.disconnect()
+                    rep = X.signals.output.disconnect()
                 elif what == "signals":
-                    n.signals.disconnect()
+                    rep = X.signals.disconnect()
                 elif what == "node":
-                    n.disconnect()
+                    rep = X.disconnect()
                 elif what == "run":
-                    n.signals.disconnect_run()
-            elif op[0] == "copyconns":
+                    rep = X.signals.disconnect_run()
+                elif what == "crun":
+                    rep = X.disconnect_run()
+                else:
+                    raise _Malformed()
+                rep = pairs(rep)
+            elif kind == "query":
+                pass
+            elif kind == "copyconns":
                 obj[op[1]].copy_connections(obj[op[2]])
-            elif op[0] == "copyio":
-                ns[op[2]]._copy_connections(ns[op[3]], fail_hard=(op[1] == "hard"))
-            elif op[0] == "remove":
-                if op[1] in removed:
+            elif kind == "copyio":
+                me, other = objs[op[2]], objs[op[3]]
+                if op[1] in ("hard", "soft"):
+                    me._copy_connections(other, fail_hard=(op[1] == "hard"))
+                else:
+                    me.copy_io(other, connections_fail_hard=(op[1] == "pub"))
+            elif kind == "remove":
+                X = objs[op[1]]
+                if getattr(X, "parent", None) is None:
                     res = "skip"
                 else:
-                    wf.remove_child(ns[op[1]])
-                    removed.add(op[1])
-            elif op[0] == "readd":
-                if op[1] in removed:
-                    wf.add_child(ns[op[1]])
-                    removed.discard(op[1])
-                else:
-                    res = "skip"
-            elif op[0] == "runwf":
+                    X.parent.remove_child(X)
+            elif kind == "readd":
                 modelled = False
-                wf.run()
-            elif op[0] == "pull":
-                modelled = False
-                ns[op[1]].pull()
-            elif op[0] == "replace":
-                modelled = False
-                if op[1] in removed:
+                X = objs[op[1]]
+                if getattr(X, "parent", None) is not None or op[1] in WFS:
                     res = "skip"
                 else:
-                    old = ns[op[1]]
-                    new = getattr(nodes, NODE_SPECS[op[1]])(label="repl")
-                    wf.replace_child(old, new)
-                    # the replacement takes the old node's slot in the enumeration
-                    ns[op[1]] = new
-                    newch = _channels(ns)
-                    for (cid, _n, _p, _l, ch) in newch:
-                        obj[cid] = ch
-                    chans = newch
-                    index = {id(ch): cid for cid, _n, _p, _l, ch in chans}
-                    for c in case["nonstrict"]:
-                        obj[c].strict_hints = False
-        except TypeError:
+                    objs[op[2]].add_child(X)
+            elif kind == "replace":
+                modelled = False
+                X = objs[op[1]]
+                if getattr(X, "parent", None) is None:
+                    res = "skip"
+                else:
+                    st["cand_clean"] = (getattr(objs[op[2]], "parent", None) is None and not objs[op[2]].connected)
+                    X.parent.replace_child(X, objs[op[2]])
+            elif kind == "start":
+                modelled = False
+                X = objs[op[1]]
+                if op[1] not in LEAVES or X.running:
+                    res = "skip"
+                else:
+                    X.executor = execsim.CtlExecutor(sched)
+                    r = guarded(lambda: X.run())
+                    if not X.running:
+                        X.executor = None
+            elif kind == "finish":
+                modelled = False
+                if not finish(op[1]):
+                    res = "skip"
+            elif kind == "boom":
+                modelled = False
+                X = objs[op[1]]
+                if op[1] in LEAVES:
+                    X.inputs.u.value = "boom" if op[2] else None
+                    if not op[2]:
+                        X.failed = False
+                else:
+                    res = "skip"
+            elif kind == "runnode":
+                modelled = False
+                guarded(lambda: objs[op[1]].run())
+            elif kind == "runwf":
+                modelled = False
+                if op[1] not in WFS:
+                    raise _Malformed()
+                guarded(lambda: (sched.drain(), objs[op[1]].run()))
+            elif kind == "pull":
+                modelled = False
+                guarded(lambda: (sched.drain(), objs[op[1]].pull()))
+            elif kind == "lock":
+                modelled = False
+                wrap(op[1])
+                locked.add(op[1])
+            elif kind == "unlock":
+                modelled = False
+                locked.discard(op[1])
+            else:
+                raise _Malformed()
+        except _Malformed:
+            res = "malformed"
+        except InjectedLock:
+            res = "locked"
+        except TypeError as e:
             res = "typeErr"
-        except ChannelConnectionError:
+            st["exc"] = type(e).__name__
+        except ChannelConnectionError as e:
             res = "connErr"
+            st["exc"] = type(e).__name__
+        except ConnectionCopyError as e:
+            res = "connErr"
+            st["exc"] = type(e).__name__
+            st["cause"] = type(e.__cause__).__name__ if e.__cause__ is not None else None
+        except execsim.Stuck as e:
+            res = "exc:Stuck"
+            st["exc"] = "Stuck"
         except Exception as e:  # noqa: BLE001
-            res = "connErr" if op[0] in ("copyio",) else f"exc:{type(e).__name__}"
-        snap = _snapshot(chans, index)
+            res = f"exc:{type(e).__name__}"
+            st["exc"] = type(e).__name__
+        if res.startswith("exc:") or res in ("typeErr", "connErr", "locked"):
+            rep = None
+        if op[0] in ("odisc", "query") and res != "malformed":
+            try:
+                fl = flags(objs[op[1]])
+            except Exception as e:  # noqa: BLE001
+                st["flags_exc"] = type(e).__name__
+        snap = snapshot()
         if snap != prev:
             changed += 1
-        states.append({"op": op, "res": res, "modelled": modelled, "snap": snap})
+        st.update({"res": res, "modelled": modelled, "snap": snap, "rep": rep, "flags": fl, "parents": parents(),
+                   "runstate": runstate()})
+        states.append(st)
         prev = snap
-        kinds.append(op[0])
+        kinds.append(str(op[0]))
+    # nothing may stay outstanding
+    try:
+        guarded(sched.drain)
+    except BaseException:  # noqa: BLE001
+        pass
     stats = {f"op:{k}": kinds.count(k) for k in set(kinds)}
+    stats[f"family:{case.get('family', '?')}"] = 1
     for s in states:
-        stats[f"res:{s['res'].split(':')[0]}"] = stats.get(f"res:{s['res'].split(':')[0]}", 0) + 1
-    return {"obs": [_fmt(s["res"], s["snap"]) for s in states], "states": states, "changed": changed,
-            "stats": stats}
+        key = f"res:{s['res'].split(':')[0]}"
+        stats[key] = stats.get(key, 0) + 1
+        if s["op"][0] in ("connect", "disconnect", "disconnectall", "odisc", "copyconns", "copyio", "remove", "replace"):
+            rs = s["runstate"]
+            if "r" in rs:
+                stats["edit-while-running"] = stats.get("edit-while-running", 0) + 1
+            if "f" in rs:
+                stats["edit-while-failed"] = stats.get("edit-while-failed", 0) + 1
+        if s["op"][0] in ("copyio", "replace") and s["res"] not in ("ok", "skip"):
+            stats["copy-refused"] = stats.get("copy-refused", 0) + 1
+        if s["op"][0] == "odisc" and s["rep"]:
+            stats[f"odisc-destroyed:{OBJS[s['op'][1]][0]}"] = stats.get(f"odisc-destroyed:{OBJS[s['op'][1]][0]}", 0) + 1
+    obs = []
+    for s in states:
+        obs.extend(_lines(s))
+    return {"obs": obs, "init": init, "states": states, "changed": changed, "stats": stats}
+
+
+class _Malformed(Exception):
+    pass
+
+
+def _lines(s):
+    """canonical observation lines of one operation"""
+    if s["res"] == "malformed":
+        return ["bad-op"]
+    out = []
+    if s["op"][0] != "query":
+        out.append(f"{s['res']} {_fmt_rep(s['rep'])} {_fmt_conns(s['snap'])}")
+    if s.get("flags") is not None:
+        out.append(_fmt_flags(s["flags"]))
+    return out
 
 
 def nontrivial(case, r):
@@ -324,118 +962,312 @@ def nontrivial(case, r):
 # ----------------------------------------------------------------------------- model side
 
 
+def _is_modelled(st):
+    return st["modelled"] and st["res"] != "skip" and not st["res"].startswith("exc:")
+
+
+def _copyio_pairs(lay, me, other):
+    pairs = []
+    for mine, theirs in zip(lay.owned_panels(me), lay.owned_panels(other)):
+        by_label = {lay.rows[c][2]: c for c in mine}
+        for c in theirs:
+            m = by_label.get(lay.rows[c][2])
+            pairs.append(f"{'-' if m is None else m}:{c}")
+    return pairs
+
+
+def _setconns(snap):
+    return ["clearconns"] + [f"setconns {c} " + " ".join(map(str, l)) for c, l in enumerate(snap) if l]
+
+
 def model_input(case, impl=None):
+    lay = layout_of(case)
     lines = []
-    for c, (n, p, _l) in enumerate(LAYOUT):
-        lines.append(f"chan {c} {KINDS[p]} {n}")
-    for a, b in _invalid_pairs(set(case["nonstrict"])):
+    for c, (o, p, _l, _h) in enumerate(lay.rows):
+        lines.append(f"chan {c} {KINDS[p]} {o}")
+    for a, b in lay.invalid_pairs(set(case["nonstrict"])):
         lines.append(f"invalid {a} {b}")
-    states = impl["states"] if impl else [None] * len(case["ops"])
-    for op, st in zip(case["ops"], states):
-        if st is not None and (not st["modelled"] or st["res"] == "skip" or st["res"].startswith("exc:")):
+    if impl is None or "init" not in impl:
+        return lines
+    lines += _setconns(impl["init"]["snap"])
+    for st in impl["states"]:
+        op = st["op"]
+        if st["res"] == "malformed":
+            lines.append("malformed " + " ".join(str(x) for x in op))
+            continue
+        if op[0] in ("lock", "unlock") and st["res"] == "ok":
+            lines.append(f"{op[0]} {op[1]}")
+            continue
+        if not _is_modelled(st):
             # not part of this model: re-synchronise from the observed state
-            for c, l in enumerate(st["snap"]):
-                lines.append(f"setconns {c} " + " ".join(map(str, l)))
+            lines += _setconns(st["snap"])
             continue
         if op[0] == "connect":
             a, bs = op[2], op[3:]
-            if op[1] in ("assign", "kw", "rshift", "lshift"):
-                b = bs[0]
-                inp, out = (a, b) if LAYOUT[a][1] in ("inputs", "sin") else (b, a)
-                # sugar always calls   input.connect(output)  except lshift: output.connect(input)
-                if op[1] == "lshift" and LAYOUT[inp][2] == "accumulate_and_run":
-                    lines.append(f"connect {out} {inp}")
-                else:
-                    lines.append(f"connect {inp} {out}")
-            else:
+            how = op[1]
+            if how == "method" or len(bs) != 1:
                 lines.append(f"connect {a} " + " ".join(map(str, bs)))
+            else:
+                b = bs[0]
+                pa, pb = lay.rows[a][1], lay.rows[b][1]
+                inp, out = (a, b) if pa in ("inputs", "sin") else (b, a)
+                if {pa, pb} == {"inputs", "outputs"}:
+                    lines.append(f"connect {inp} {out}")          # every data sugar calls input.connect(output)
+                elif {pa, pb} == {"sin", "sout"}:
+                    acc = lay.rows[inp][2] == "accumulate_and_run"
+                    if how == "lshift" and acc:
+                        lines.append(f"connect {out} {inp}")      # acc << out : out.connect(acc)
+                    elif how == "olshift" and acc:
+                        lines.append(f"connect {out} {inp}")      # owner << owner, acc << out
+                    else:
+                        lines.append(f"connect {inp} {out}")      # out >> inp, owner >> owner : inp.connect(out)
+                else:
+                    lines.append(f"connect {a} {b}")
         elif op[0] == "disconnect":
             lines.append(f"disconnect {op[1]} " + " ".join(map(str, op[2:])))
         elif op[0] == "disconnectall":
             lines.append(f"disconnectall {op[1]}")
-        elif op[0] == "paneldisc":
-            what = op[2]
-            if what == "run":
-                cs = [c for c in _chans_of(op[1], ("sin",))]
-            elif what == "signals":
-                cs = _chans_of(op[1], ("sin",)) + _chans_of(op[1], ("sout",))
-            elif what == "node":
-                cs = _chans_of(op[1])
-            else:
-                cs = _chans_of(op[1], (what,))
-            lines.append("disconnectchans " + " ".join(map(str, cs)))
+        elif op[0] in ("odisc", "query"):
+            if op[0] == "odisc":
+                I, O, SI, SO = st["members_pre"]
+                what = st["what"]
+                if what == "run":
+                    cs = [c for c in SI if lay.rows[c][2] in ("run", "accumulate_and_run")]
+                elif what == "crun":
+                    cs = []
+                    for k in st["children_pre"]:
+                        cs += [c for c in lay.panel(k, "sin") if lay.rows[c][2] in ("run", "accumulate_and_run")]
+                else:
+                    cs = {"inputs": I, "outputs": O, "sin": SI, "sout": SO, "signals": SI + SO,
+                          "node": I + O + SI + SO}[what]
+                lines.append("disconnectchans " + " ".join(map(str, cs)))
+            if st.get("flags") is not None:
+                lines.append("flags " + "|".join(",".join(map(str, g)) for g in st["flags"]["members"]))
         elif op[0] == "copyconns":
             lines.append(f"copyconns {op[1]} {op[2]}")
         elif op[0] == "copyio":
-            me, other = op[2], op[3]
-            pairs = []
-            for panel in ("inputs", "outputs", "sin", "sout"):
-                mine = {LAYOUT[c][2]: c for c in _chans_of(me, (panel,))}
-                for c in _chans_of(other, (panel,)):
-                    m = mine.get(LAYOUT[c][2])
-                    pairs.append(f"{'-' if m is None else m}:{c}")
-            lines.append(f"copyio {op[1]} " + " ".join(pairs))
+            hard = op[1] in ("hard", "pub")
+            lines.append(f"copyio {'hard' if hard else 'soft'} " + " ".join(_copyio_pairs(lay, op[2], op[3])))
         elif op[0] == "remove":
-            lines.append("disconnectchans " + " ".join(map(str, _chans_of(op[1]))))
-        elif op[0] == "readd":
-            lines.append("disconnectchans")
+            lines.append("dropchans " + " ".join(map(str, lay.own(op[1]))))
     return lines
 
 
 def corr_view(case, impl):
+    if "states" not in impl:
+        return impl["obs"]
     out = []
-    for st, line in zip(impl["states"], impl["obs"]):
-        if not st["modelled"] or st["res"] == "skip" or st["res"].startswith("exc:"):
+    for st in impl["states"]:
+        if st["res"] == "malformed":
+            out.append("bad-op")
+        elif st["op"][0] in ("lock", "unlock"):
             continue
-        out.append(line)
+        elif _is_modelled(st):
+            out.extend(_lines(st))
     return out
 
 
 # ----------------------------------------------------------------------------- oracle (independent of the model)
 
 
+def _pairset(snap):
+    return {(a, b) for a, l in enumerate(snap) for b in l}
+
+
 def oracle(case, r):
+    if "states" not in r:
+        return []
+    lay = layout_of(case)
     fails = []
-    conj = {"inputs": "outputs", "outputs": "inputs", "sin": "sout", "sout": "sin"}
-    prev = None
+    prev = r["init"]["snap"]
+    prev_parents = r["init"]["parents"]
+    members0 = r["init"]["members"]
+    injected = False
+    fails += _invariants(lay, prev, -1, ["init"])
     for k, st in enumerate(r["states"]):
-        snap = st["snap"]
-        op = st["op"]
-        for a, l in enumerate(snap):
-            if len(set(l)) != len(l):
-                fails.append(_f("duplicate", k, op, f"channel {a} lists {l}"))
-            for b in l:
-                if b < 0:
-                    fails.append(_f("dangling-unknown", k, op, f"channel {a} lists a channel of no live node"))
-                    continue
-                if a not in snap[b]:
-                    fails.append(_f("not-mutual", k, op, f"{a} lists {b} but {b} lists {snap[b]}"))
-                if LAYOUT[b][1] != conj[LAYOUT[a][1]]:
-                    fails.append(_f("ill-typed", k, op, f"{a}({LAYOUT[a][1]}) – {b}({LAYOUT[b][1]})"))
-        if prev is not None:
-            if op[0] == "connect" and len(op) == 4 and st["res"] in ("typeErr", "connErr") and snap != prev:
-                fails.append(_f("refused-connect-changed-state", k, op, ""))
-            if op[0] == "disconnect" and all(b not in prev[op[1]] for b in op[2:]) and snap != prev:
-                fails.append(_f("disconnect-of-unconnected-changed-state", k, op, ""))
-        if (op[0] == "remove" and st["res"] == "ok") or (op[0] == "paneldisc" and op[2] == "node"):
-            mine = set(_chans_of(op[1]))
-            for a, l in enumerate(snap):
-                if a not in mine and mine & set(l):
-                    fails.append(_f("removed-node-still-referenced", k, op, f"channel {a} lists {l}"))
-        prev = snap
         if fails:
             break
+        snap, op, res = st["snap"], st["op"], st["res"]
+        if op[0] == "lock":
+            injected = True  # from here on the harness itself tears connections apart: correspondence only
+        if injected or res == "malformed":
+            prev, prev_parents = snap, st["parents"]
+            continue
+        refused = res in ("typeErr", "connErr") or res.startswith("exc:")
+        fails += _invariants(lay, snap, k, op)
+        before, after = _pairset(prev), _pairset(snap)
+        destroyed = {frozenset(p) for p in before - after}
+        created = {frozenset(p) for p in after - before}
+        if op[0] == "connect":
+            if len(op) == 4 and refused and snap != prev:
+                fails.append(_f("refused-connect-changed-state", k, op, f"{res}", exc=st.get("exc")))
+            if destroyed:
+                fails.append(_f("connect-destroyed-a-connection", k, op, f"{sorted(map(sorted, destroyed))}"))
+        if op[0] in ("disconnect", "disconnectall"):
+            a = op[1]
+            named = set(op[2:]) if op[0] == "disconnect" else set(prev[a])
+            if op[0] == "disconnect" and all(b not in prev[a] for b in op[2:]) and snap != prev:
+                fails.append(_f("disconnect-of-unconnected-changed-state", k, op, ""))
+            if refused and snap != prev:
+                fails.append(_f("refused-disconnect-changed-state", k, op, res, exc=st.get("exc")))
+            if res == "ok":
+                want = {frozenset((a, b)) for b in named if b in prev[a]}
+                fails += _exact(k, op, prev, snap, want, st["rep"], destroyed, created)
+        if op[0] == "odisc" and res in ("ok",) or (op[0] == "odisc" and refused):
+            obj = op[1]
+            pre = st["members_pre"]
+            what = st.get("what", op[2])
+            if OBJS[obj][0] != "wf" and pre != members0[str(obj)]:
+                fails.append(_f("own-panel-membership-changed", k, op, f"{pre} vs {members0[str(obj)]}"))
+            I, O, SI, SO = pre
+            if what == "run":
+                mine = [c for c in SI if lay.rows[c][2] in ("run", "accumulate_and_run")]
+            elif what == "crun":
+                mine = [c for kid in st["children_pre"] for c in lay.panel(kid, "sin")
+                        if lay.rows[c][2] in ("run", "accumulate_and_run")]
+            else:
+                mine = {"inputs": I, "outputs": O, "sin": SI, "sout": SO, "signals": SI + SO,
+                        "node": I + O + SI + SO}[what]
+            mine_set = set(mine)
+            if refused:
+                if snap != prev:
+                    fails.append(_f("refused-disconnect-changed-state", k, op, res, exc=st.get("exc")))
+            else:
+                # no channel anywhere still points at one of the owner's channels, the owner's hold nothing
+                for a, l in enumerate(snap):
+                    if a in mine_set and l:
+                        fails.append(_f("owner-still-connected", k, op, f"its channel {a} ({_name(lay, a)}) lists {l}",
+                                        level=OBJS[obj][0], what=what))
+                    elif mine_set & set(l):
+                        fails.append(_f("owner-still-referenced", k, op,
+                                        f"channel {a} ({_name(lay, a)}) lists {sorted(mine_set & set(l))}",
+                                        level=OBJS[obj][0], what=what))
+                want = {frozenset((a, b)) for a in mine for b in prev[a]}
+                fails += _exact(k, op, prev, snap, want, st["rep"], destroyed, created, level=OBJS[obj][0])
+        if op[0] in ("odisc", "query") and st.get("flags") is not None and not refused:
+            fails += _flags_agree(lay, k, op, st, snap, members0)
+        if op[0] in ("odisc", "query") and st.get("flags_exc"):
+            fails.append(_f("owner-observers-raise", k, op, st["flags_exc"]))
+        if op[0] in ("remove", "replace") and res != "skip":
+            # whoever lost its parent in this operation is not pointed at by anybody, and holds nothing
+            for o, (p0, p1) in enumerate(zip(prev_parents, st["parents"])):
+                if p0 != -1 and p1 == -1:
+                    mine_set = set(lay.own(o))
+                    for a, l in enumerate(snap):
+                        if a not in mine_set and mine_set & set(l):
+                            fails.append(_f("removed-node-still-referenced", k, op,
+                                            f"{OBJS[o][3]} lost its parent but channel {a} ({_name(lay, a)}) lists "
+                                            f"{sorted(mine_set & set(l))}", res=res.split(':')[0]))
+                        elif a in mine_set and l:
+                            fails.append(_f("removed-node-still-connected", k, op,
+                                            f"{OBJS[o][3]} lost its parent but its channel {a} ({_name(lay, a)}) "
+                                            f"lists {l}", res=res.split(':')[0]))
+            if op[0] == "remove" and res == "ok":
+                want = {frozenset((a, b)) for a in lay.own(op[1]) for b in prev[a]}
+                fails += _exact(k, op, prev, snap, want, None, destroyed, created)
+        if op[0] in ("copyconns", "copyio", "replace") and refused and snap != prev:
+            hard = not (op[0] == "copyio" and op[1] in ("soft", "pubsoft"))
+            if hard:
+                detail = (f"{res}: destroyed {sorted(map(sorted, destroyed))}, left behind "
+                          f"{sorted(map(sorted, created))}" + ("" if destroyed or created else ", order changed"))
+                swapped = None
+                if op[0] == "replace":
+                    swapped = st["parents"][op[2]] != prev_parents[op[2]]
+                fails.append(_f("refused-copy-changed-state", k, op, detail, exc=st.get("exc"),
+                                lost_preexisting=bool(destroyed), left_new=bool(created), swapped=swapped))
+        if op[0] == "replace" and refused and st.get("cand_clean") and any(snap[c] for c in lay.own(op[2])):
+            if not any(f["clause"] == "refused-copy-changed-state" for f in fails):
+                fails.append(_f("refused-replacement-left-connected", k, op, res, exc=st.get("exc")))
+        if op[0] in ("copyconns", "copyio") and res == "ok" and destroyed:
+            fails.append(_f("copy-destroyed-a-connection", k, op, f"{sorted(map(sorted, destroyed))}"))
+        prev, prev_parents = snap, st["parents"]
     return fails
 
 
-def _f(clause, k, op, detail):
-    return {"clause": clause, "detail": f"after op #{k} {op}: {detail}",
-            "signature": {"clause": clause, "trigger": op[0]}}
+def _invariants(lay, snap, k, op):
+    fails = []
+    for a, l in enumerate(snap):
+        if len(set(l)) != len(l):
+            fails.append(_f("duplicate", k, op, f"channel {a} ({_name(lay, a)}) lists {l}"))
+        for b in l:
+            if b < 0:
+                fails.append(_f("dangling-unknown", k, op, f"channel {a} ({_name(lay, a)}) lists a channel of no live owner"))
+                continue
+            if a not in snap[b]:
+                fails.append(_f("not-mutual", k, op, f"{a} ({_name(lay, a)}) lists {b} ({_name(lay, b)}) but {b} lists {snap[b]}"))
+            if lay.rows[b][1] != CONJ[lay.rows[a][1]]:
+                fails.append(_f("ill-typed", k, op, f"{a}({lay.rows[a][1]}) – {b}({lay.rows[b][1]})"))
+    return fails
+
+
+def _exact(k, op, prev, snap, want, rep, destroyed, created, **sig):
+    """a disconnection destroys exactly the pairs it is asked to, keeps the order of everything else, and
+    reports each destroyed pair exactly once"""
+    fails = []
+    if destroyed != want:
+        extra, missing = destroyed - want, want - destroyed
+        fails.append(_f("disconnect-not-exact", k, op,
+                        f"destroyed beyond its remit {sorted(map(sorted, extra))}, not destroyed "
+                        f"{sorted(map(sorted, missing))}", **sig))
+    if created:
+        fails.append(_f("disconnect-created-a-connection", k, op, f"{sorted(map(sorted, created))}", **sig))
+    for a, (l0, l1) in enumerate(zip(prev, snap)):
+        if [b for b in l0 if b in l1] != l1:
+            fails.append(_f("disconnect-reordered", k, op, f"channel {a}: {l0} -> {l1}", **sig))
+            break
+    if rep is not None:
+        got = sorted(sorted(p) for p in rep)
+        if got != sorted(sorted(p) for p in destroyed):
+            fails.append(_f("report-differs-from-destroyed", k, op,
+                            f"reported {got}, destroyed {sorted(map(sorted, destroyed))}", **sig))
+    return fails
+
+
+def _flags_agree(lay, k, op, st, snap, members0):
+    fails = []
+    fl = st["flags"]
+    obj = op[1]
+    if OBJS[obj][0] != "wf" and fl["members"] != members0[str(obj)]:
+        fails.append(_f("own-panel-membership-changed", k, op, f"{fl['members']}"))
+    bits = []
+    for grp, bit, got in zip(fl["members"], fl["bits"], fl["sets"]):
+        want_bit = any(snap[c] for c in grp if c >= 0)
+        want_set = sorted({b for c in grp if c >= 0 for b in snap[c]})
+        bits.append(want_bit)
+        if bit != want_bit:
+            fails.append(_f("connected-flag-wrong", k, op, f"panel {grp}: connected={bit}, lists say {want_bit}",
+                            level=OBJS[obj][0]))
+        if got != want_set:
+            fails.append(_f("panel-connections-wrong", k, op, f"panel {grp}: connections={got}, lists say {want_set}",
+                            level=OBJS[obj][0]))
+    if fl["bits"][4] != any(bits):
+        fails.append(_f("connected-flag-wrong", k, op, f"owner.connected={fl['bits'][4]}, panels say {any(bits)}",
+                        level=OBJS[obj][0]))
+    if op[0] == "odisc" and st.get("what") == "node" and st["res"] == "ok" and fl["bits"][4]:
+        fails.append(_f("owner-still-connected", k, op, "connected is True right after disconnect()",
+                        level=OBJS[obj][0], what="node"))
+    return fails
+
+
+def _name(lay, c):
+    if c < 0:
+        return "?"
+    o, p, l, _h = lay.rows[c]
+    return f"{OBJS[o][3]}.{p}.{l}"
+
+
+def _f(clause, k, op, detail, **extra):
+    sig = {"clause": clause, "trigger": op[0]}
+    sig.update({key: v for key, v in extra.items() if v is not None})
+    return {"clause": clause, "detail": f"after op #{k} {op}: {detail}", "signature": sig}
 
 
 def shrink_candidates(case):
     ops = case["ops"]
+    base = {k: v for k, v in case.items() if k != "ops"}
     for i in range(len(ops)):
-        yield {"nonstrict": case["nonstrict"], "ops": ops[:i] + ops[i + 1:]}
+        yield {**base, "ops": ops[:i] + ops[i + 1:]}
     if case["nonstrict"]:
-        yield {"nonstrict": [], "ops": ops}
+        yield {**base, "nonstrict": [], "ops": ops}
+    if case["maps"] != _NOMAP:
+        yield {**base, "maps": _NOMAP, "ops": ops}
